@@ -19,6 +19,8 @@ import (
 	"encoding/json"
 	"errors"
 	"fmt"
+	"os"
+	"path/filepath"
 	"runtime"
 	"sort"
 	"strings"
@@ -584,7 +586,7 @@ func c26Run(c *c26Case, st *vstat.Stats) error {
 			stopReturned.Store(true)
 		})
 		t0 := time.Now()
-		for time.Since(t0) < 30*time.Millisecond {
+		for time.Since(t0) < 150*time.Millisecond {
 			if stopReturned.Load() || goroutineBlockedIn("workers.(*ParallelWorkers).Stop", "workers.(*ParallelWorkers).Stop") {
 				stopConfirmed = true
 				break
@@ -1120,5 +1122,58 @@ func TestC26Replay(t *testing.T) {
 			fmt.Printf("recorded history of the failing run: %d events\n", len(c.Observed.Events))
 		}
 		return c26Run(&c, vstat.New(nil, "C26", ""))
+	})
+}
+
+// TestC26Seeds / TestC08Seeds replay the hand-written regression cases in
+// testdata/seeds (among them the scenarios of the repaired finding F5).
+func runSeeds(t *testing.T, id string, run func(raw []byte, st *vstat.Stats) error) {
+	st := vstat.New(t, id, "regression seeds in testdata/seeds (hand-written schedules, incl. the scenarios of repaired findings)")
+	files, _ := filepath.Glob(filepath.Join("testdata", "seeds", id+"-*.json"))
+	sort.Strings(files)
+	if len(files) == 0 {
+		t.Fatalf("no seed files for %s", id)
+	}
+	for _, f := range files {
+		b, err := os.ReadFile(f)
+		if err != nil {
+			t.Fatalf("%s: %v", f, err)
+		}
+		var rf struct {
+			Case json.RawMessage `json:"case"`
+		}
+		if err := json.Unmarshal(b, &rf); err != nil {
+			t.Fatalf("%s: %v", f, err)
+		}
+		for rep := 0; rep < 5; rep++ {
+			var keep any
+			err := run(rf.Case, st)
+			var ie *inconclusiveErr
+			if errors.As(err, &ie) {
+				t.Fatalf("%s: %v", f, err)
+			}
+			_ = json.Unmarshal(rf.Case, &keep)
+			vstat.Run(t, st, keep, func() error { return err })
+		}
+	}
+}
+
+func TestC26Seeds(t *testing.T) {
+	runSeeds(t, "C26", func(raw []byte, st *vstat.Stats) error {
+		var c c26Case
+		if err := json.Unmarshal(raw, &c); err != nil {
+			return err
+		}
+		return c26Run(&c, st)
+	})
+}
+
+func TestC08Seeds(t *testing.T) {
+	runSeeds(t, "C08", func(raw []byte, st *vstat.Stats) error {
+		var c c08Case
+		if err := json.Unmarshal(raw, &c); err != nil {
+			return err
+		}
+		return c08Run(&c, st)
 	})
 }
